@@ -37,8 +37,11 @@ class Gen:
             t = f"{self.kw('end')} {self.kw(kind)}"
         elif form < 0.75:
             t = f"{self.kw('end')}{self.kw(kind)} {name}"
-        elif form < 0.87:
+        elif form < 0.82:
             t = f"{self.kw('end')}   {self.kw(kind)}   {name}   ! trailing comment"
+        elif form < 0.87:
+            # joined keyword, no name, then blanks or what is left of a trailing comment
+            t = f"{self.kw('end')}{self.kw(kind)}" + self.r.choice(["  ", " ! done", "   ! " + name])
         elif kind in ("subroutine", "function", "module", "program"):
             t = self.kw("end")  # a bare END closes a program unit or procedure
         else:
@@ -54,14 +57,14 @@ class Gen:
             elif depth > 0 and c < 0.4:
                 self.emit(f"{self.kw('do')} i = 1, 3", indent)
                 self.body(indent + 1, depth - 1)
-                self.emit(self.r.choice([self.kw("end do"), self.kw("enddo")]), indent)
+                self.emit(self.r.choice([self.kw("end do"), self.kw("enddo"), self.kw("enddo") + " ! i", self.kw("enddo") + "  "]), indent)
             elif depth > 0 and c < 0.55:
                 self.emit(f"{self.kw('if')} (x > 0) {self.kw('then')}", indent)
                 self.body(indent + 1, depth - 1)
                 if self.r.random() < 0.4:
                     self.emit(self.kw("else"), indent)
                     self.body(indent + 1, depth - 1)
-                self.emit(self.r.choice([self.kw("end if"), self.kw("endif")]), indent)
+                self.emit(self.r.choice([self.kw("end if"), self.kw("endif"), self.kw("endif") + "   ! x", self.kw("endif") + " "]), indent)
             elif depth > 0 and c < 0.65:
                 self.emit(f"{self.kw('block')}", indent)
                 self.emit("integer :: bl", indent + 1)
@@ -108,7 +111,8 @@ class Gen:
                 self.emit(self.kw("end critical"), indent)
             elif c < 0.985:
                 self.emit(r_choice(self.r, ["where (arr > 1) arr = 1", "forall (i = 1:3) arr(i) = 0", "if (x > 1) x = 0",
-                                            "do_count = 3", "block_size = x", "if_flag = x", "where_all(1) = 2"]), indent)
+                                            "do_count = 3", "block_size = x", "if_flag = x", "where_all(1) = 2", "block(1) = 3", "critical = 4",
+                                            "end file 10"]), indent)
             else:
                 self.emit("if (x > 1) x = 0", indent)
 
@@ -129,7 +133,7 @@ class Gen:
         elif pre < 0.3 and not typed:
             head = self.kw("impure elemental ") + head
         s = self.emit(head, indent)
-        self.emit("integer :: a, x, i, do_count, block_size, if_flag", indent + 1)
+        self.emit("integer :: a, x, i, do_count, block_size, if_flag, block(2), critical", indent + 1)
         self.emit("integer :: arr(3), where_all(2)", indent + 1)
         self.emit("class(*) :: cls", indent + 1)
         self.body(indent + 1, 2)
@@ -198,7 +202,7 @@ class Gen:
     def program(self):
         nm = self.name("pg")
         s = self.emit(f"{self.kw('program')} {nm}", 0)
-        self.emit("integer :: x, i, do_count, block_size, if_flag", 1)
+        self.emit("integer :: x, i, do_count, block_size, if_flag, block(2), critical", 1)
         self.emit("integer :: arr(3), where_all(2)", 1)
         self.emit("class(*), allocatable :: cls", 1)
         self.body(1, 2)
@@ -281,7 +285,7 @@ def check_program(text, expect, members, fname="g.f90"):
         universe = [e["name"] for e in tops] + [e["name"] for e in expect if e["container"] in mods | progs]
         universe += ["mv" for e in expect if e["cat"] == "module"]
         for _ in progs:
-            universe += ["x", "i", "arr", "do_count", "block_size", "if_flag", "where_all", "cls"]
+            universe += ["x", "i", "arr", "do_count", "block_size", "if_flag", "where_all", "cls", "block", "critical"]
         for k, q in enumerate(queries):
             res = by_id[10 + k].get("result")
             if res is None:
@@ -377,8 +381,72 @@ def check_names_and_ranges(text, expect, fname):
         ws.close()
 
 
+def incremental_edits(rnd: random.Random, n_edits: int = 6):
+    """--incremental_sync: after every single-line edit (a statement commented out, restored, or a character typed) the
+    outline equals the outline of a fresh server given the same buffer."""
+    from replay.harness import Workspace, make_server, parse_out
+    from fortls.jsonrpc import path_to_uri
+    g = Gen(rnd)
+    text, _, _ = g.generate()
+    lines = text.split("\n")
+    ws = Workspace({"g.f90": text})
+    try:
+        uri = ws.uri("g.f90")
+
+        def start(argv):
+            srv, rw = make_server(argv)
+            srv.nthreads = 1
+            srv.handle({"jsonrpc": "2.0", "id": 0, "method": "initialize", "params": {"rootUri": path_to_uri(ws.root), "rootPath": ws.root}})
+            return srv, rw
+
+        def outline(srv, rw):
+            rw.out.clear()
+            srv.handle({"jsonrpc": "2.0", "id": 5, "method": "textDocument/documentSymbol", "params": {"textDocument": {"uri": uri}}})
+            res = [m for m in parse_out(rw.out) if m.get("id") == 5]
+            syms = (res[0].get("result") or []) if res else None
+            return None if syms is None else sorted((s_["name"], s_["kind"], s_["location"]["range"]["start"]["line"],
+                                                     s_["location"]["range"]["end"]["line"], s_.get("containerName")) for s_ in syms)
+        srv, rw = start(["--incremental_sync"])
+        srv.handle({"jsonrpc": "2.0", "method": "textDocument/didOpen", "params": {"textDocument": {"uri": uri, "text": text}}})
+        history = []
+        for _ in range(n_edits):
+            cand = [i for i, l in enumerate(lines) if l.strip()]
+            i = rnd.choice(cand)
+            if lines[i].startswith("!"):
+                change = {"range": {"start": {"line": i, "character": 0}, "end": {"line": i, "character": 1}}, "text": ""}
+                lines[i] = lines[i][1:]
+            elif rnd.random() < 0.7:
+                change = {"range": {"start": {"line": i, "character": 0}, "end": {"line": i, "character": 0}}, "text": "!"}
+                lines[i] = "!" + lines[i]
+            else:
+                col = len(lines[i])
+                change = {"range": {"start": {"line": i, "character": col}, "end": {"line": i, "character": col}}, "text": " "}
+                lines[i] = lines[i] + " "
+            history.append((i, change["text"] or "<delete 1>"))
+            srv.handle({"jsonrpc": "2.0", "method": "textDocument/didChange",
+                        "params": {"textDocument": {"uri": uri}, "contentChanges": [change]}})
+            got = outline(srv, rw)
+            fresh, frw = start([])
+            fresh.handle({"jsonrpc": "2.0", "method": "textDocument/didOpen",
+                          "params": {"textDocument": {"uri": uri, "text": "\n".join(lines)}}})
+            want = outline(fresh, frw)
+            if got != want:
+                return {"problem": "outline after an incremental edit differs from a fresh server on the same buffer",
+                        "edits (line, inserted text)": history, "line_now": lines[i], "long_lived": got, "fresh": want,
+                        "program": "\n".join(lines)}
+        return None
+    finally:
+        ws.close()
+
+
 def run(tier: str, seed: int):
     n = 1
+    for k in range(12 if tier == "thorough" else 4):
+        w = incremental_edits(random.Random(seed * 557 + k))
+        n += 1
+        if w:
+            w["generator_seed"] = f"incremental {seed * 557 + k}"
+            return w, n
     w = check_names_and_ranges(SUBMODULES, SUBMODULES_EXPECT, "sub.f90")
     if w:
         w["program"] = SUBMODULES
